@@ -84,7 +84,7 @@ type c20Ret struct {
 	done     <-chan struct{}
 }
 
-const c20Timeout = 10 * time.Second
+const c20Timeout = 4 * time.Second
 
 type c20World struct {
 	t        *testing.T
@@ -232,6 +232,13 @@ func (w *c20World) await(th *c20Thread, newG []*c20G) {
 					g = newG[0]
 					newG = newG[1:]
 					g.gid = p.gid
+				} else {
+					for i, x := range newG {
+						if x == g {
+							newG = append(newG[:i:i], newG[i+1:]...)
+							break
+						}
+					}
 				}
 				g.park = p
 			}
@@ -915,6 +922,8 @@ func c20RunSeq(t *testing.T, out *VStream, dir string, regions *c20Regions, r *V
 		st.Inc("DESYNC")
 	}
 	st.Inc("sequences")
+	out.ops.Flush()
+	out.impl.Flush()
 	return s.nOps
 }
 
